@@ -171,6 +171,7 @@ def innerFromJson : Json → R InnerConst
   | .obj [("string", .reprOf s)] => pure (.str s)
   | .obj [("type", .lit "ellipsis")] => pure .ellipsis
   | .obj [("real", r), ("imag", i)] => do pure (.complex (← floatFromJson r) (← floatFromJson i))
+  | .obj [("imag", i), ("real", r)] => do pure (.complex (← floatFromJson r) (← floatFromJson i))
   | .obj [("bytes", .b64Of h)] => pure (.bytes h)
   | .obj [("frozenset", .arr xs)] => .fset <$> innersFromJson xs
   | _ => throw .raised
